@@ -200,6 +200,10 @@ impl Worker for W {
                 }
             }
         }
+        // shape of the listed finding F57: a record update whose type meets an open row through
+        // a function used twice on its own result (`twice f x = f (f x)`)
+        let f57_shape = has("record-update") && src.contains("twice");
+        crate::worker::note_key(&json!({"record_update_and_twice": f57_shape}));
         let stress = case["gc_stress"].as_u64().unwrap_or(0) as usize;
         gluon::vm::verif::set_gc_stress(stress);
         let got = run_program_budget(vm, &format!("c01_{:x}", h), src, 3_000_000);
@@ -226,6 +230,7 @@ impl Worker for W {
             if let Some(n) = neutralised {
                 sig["neutralised_by"] = json!(n);
             }
+            sig["record_update_and_twice"] = json!(f57_shape);
             CaseResult::violation(h, format!("reference says {} but gluon produced {}", case["expect"], got.short()), sig)
         };
         if let Outcome::Error(..) = got {
